@@ -59,6 +59,7 @@ import (
 	"encoding/hex"
 	"encoding/json"
 	"fmt"
+	"io"
 	"reflect"
 	"runtime"
 	"sort"
@@ -223,6 +224,27 @@ func (w *observingWriter) Write(p []byte) (int, error) {
 	return len(p), nil
 }
 
+// piecewiseReader returns its data one byte, or a pseudo-random short piece (1..200 bytes), per Read call.
+type piecewiseReader struct {
+	data    []byte
+	seed    uint64
+	oneByte bool
+}
+
+func (r *piecewiseReader) Read(p []byte) (int, error) {
+	if len(r.data) == 0 {
+		return 0, io.EOF
+	}
+	n := 1
+	if !r.oneByte {
+		n = 1 + int(splitmix(&r.seed)%200)
+	}
+	n = min(n, len(p), len(r.data))
+	copy(p, r.data[:n])
+	r.data = r.data[n:]
+	return n, nil
+}
+
 func safeEncode(e *gen.Entry, v reflect.Value) (b []byte, err error, panicked bool) {
 	p, stack := stats.NoPanic(func() { b, err = e.Encode(v) })
 	if p != nil {
@@ -371,6 +393,44 @@ func checkValue(c Case) error {
 				return stats.Failf(key("encode-modifies-value"), "%s: while EncodeTo was writing (write #%d of %d) the value was not the one passed in", e.Name, w.changed, w.writes)
 			}
 			rec.Label("observed-during-encoding")
+		}
+	}
+
+	// (1c) a decoder reads from whatever io.Reader it is given: a connection hands a message over in pieces of any size.
+	// Where the entry's wire form is the value's own EncodeTo, decoding it from a reader that returns one byte, or
+	// arbitrary short pieces, per call gives the value that decoding from memory gives (compared by re-encoding).
+	if len(enc) > 0 {
+		p := reflect.New(e.Type)
+		p.Elem().Set(v)
+		et, isEnc := p.Interface().(types.EncoderTo)
+		_, isDec := p.Interface().(types.DecoderFrom)
+		if isEnc && isDec {
+			var own bytes.Buffer
+			if pp, _ := stats.NoPanic(func() {
+				en := types.NewEncoder(&own)
+				et.EncodeTo(en)
+				en.Flush()
+			}); pp == nil && bytes.Equal(own.Bytes(), enc) {
+				for _, mode := range []string{"one-byte", "pieces"} {
+					q := reflect.New(e.Type)
+					r := &piecewiseReader{data: enc, seed: seed ^ 0xC11, oneByte: mode == "one-byte"}
+					d := types.NewDecoder(io.LimitedReader{R: r, N: int64(len(enc))})
+					if pp, stack := stats.NoPanic(func() { q.Interface().(types.DecoderFrom).DecodeFrom(d) }); pp != nil {
+						return stats.Failf(key("piecewise-reader"), "%s: decoding from a reader that returns %s per call panicked: %v\n%s", e.Name, mode, pp, stack)
+					}
+					if d.Err() != nil {
+						return stats.Failf(key("piecewise-reader"), "%s: decoding its own encoding (%d bytes) from a reader that returns %s per call failed: %v", e.Name, len(enc), mode, d.Err())
+					}
+					var again bytes.Buffer
+					en := types.NewEncoder(&again)
+					q.Interface().(types.EncoderTo).EncodeTo(en)
+					en.Flush()
+					if !bytes.Equal(again.Bytes(), enc) {
+						return stats.Failf(key("piecewise-reader"), "%s: the value decoded from a reader that returns %s per call re-encodes differently at byte %d", e.Name, mode, firstDiff(again.Bytes(), enc))
+					}
+				}
+				rec.Label("decoded-from-piecewise-reader")
+			}
 		}
 	}
 
